@@ -111,7 +111,23 @@ def units(tier, seed):
                 else:
                     us.append({"head": a + b, "L": 6, "full": True, "need_boundary": True})
     # per seed, the class representatives are rotated (same coverage of classes, different concrete characters)
+    # breadth sweep: EVERY code point of the Basic Multilingual Plane (and a few beyond) at every position of 8 templates
+    for lo in range(0, 0x10000, 0x1000):
+        us.append({"head": f"U+{lo:04X}", "sweep": [lo, lo + 0x1000], "L": L})
+    us.append({"head": "astral", "sweep": [0x1F600, 0x1F650], "L": L})
     return us
+
+
+TEMPLATES = ["{c}", "g{c}", "{c}g", "g{c}:1", "g:{c}", "g:1{c}", "{c}:1", "g{c}g:x", "_{c}:{c}", "{c}{c}"]
+
+
+def sweep_strings(lo, hi):
+    for cp in range(lo, hi):
+        if 0xD800 <= cp <= 0xDFFF:
+            continue
+        c = chr(cp)
+        for t in TEMPLATES:
+            yield t.replace("{c}", c)
 
 
 ROT = {0: {}, 1: {"g": "a", "G": "Z", "1": "0", "é": "ß"}, 2: {"g": "z", "G": "A", "1": "9", "é": "ñ"}, 3: {"g": "q", "G": "Q", "1": "5", "é": "ü"}, 4: {"g": "b", "G": "Y", "1": "7", "é": "ç"}}
@@ -125,7 +141,10 @@ def run_unit(unit, ctx):
     tr = str.maketrans(rot) if rot else None
     n = acc_p = acc_c = 0
     syms = SYMBOLS + BOUNDARY if (unit.get("full") or L <= 6) else SYMBOLS
-    if unit.get("only_short"):
+    if unit.get("sweep"):
+        cands = sweep_strings(*unit["sweep"])
+        tr = None
+    elif unit.get("only_short"):
         cands = [""] + SYMBOLS + BOUNDARY
     else:
         head = unit["head"]
